@@ -14,6 +14,7 @@ import (
 var errFlowDescAbsent = errors.New("flow description not present")
 var errDatapathDown = errors.New("datapath down")
 var errReqRejected = errors.New("request rejected")
+var errMandatoryIEMissing = errors.New("mandatory IE missing")
 
 func (pConn *PFCPConn) sendAssociationRequest() {
 	// Build request message
@@ -141,6 +142,10 @@ func (pConn *PFCPConn) handleAssociationSetupRequest(msg message.Message) (messa
 		return nil, errUnmarshal(errMsgUnexpectedType)
 	}
 
+	if asreq.NodeID == nil || asreq.RecoveryTimeStamp == nil {
+		return nil, errUnmarshal(errMandatoryIEMissing)
+	}
+
 	nodeID, err := asreq.NodeID.NodeID()
 	if err != nil {
 		return nil, errUnmarshal(err)
@@ -186,6 +191,10 @@ func (pConn *PFCPConn) handleAssociationSetupResponse(msg message.Message) error
 	asres, ok := msg.(*message.AssociationSetupResponse)
 	if !ok {
 		return errUnmarshal(errMsgUnexpectedType)
+	}
+
+	if asres.Cause == nil || asres.NodeID == nil || asres.RecoveryTimeStamp == nil {
+		return errUnmarshal(errMandatoryIEMissing)
 	}
 
 	cause, err := asres.Cause.Cause()
